@@ -11,7 +11,10 @@ SHARD = 150
 RULE = ("(1) exhaustive: all connector tables with 3 entries over 2 connectors x 8 targets (platform pin, other/same "
         "connector pin incl. self/mutual cycles, missing) resolved through Pins.map_names; all request sequences of "
         "length<=4 over a 4-resource overlapping table (the F5 table + a diff pair) with dir in {'-',None}; "
-        "(2) seeded random: tables of <=8 resources over a pool of <=12 pins (forced overlaps), subsignal depth<=2, "
+        "(2) seeded random: tables of <=8 resources (names from a pool where some are prefixes of others, numbers from "
+        "{0,1,2,10,11,12,100}, so path roots like led_1/led_10/led_1_0 coexist) over a pool of <=12 pins (forced overlaps), "
+        "after a refused request probes that collide with pins (incl. DiffPairs n) / clocked ports of granted resources; "
+        "dedicated prefix-root histories (grant long root, refuse short root after a partial claim, probe); subsignal depth<=2, "
         "diff pairs, connector chains of length<=3 (conn= and explicit 'J_n:k' forms), attributes (incl. callables), clocks; "
         "histories of <=12 requests, dir mostly '-', some None/i/o/oe/io/dicts, xdr overrides, repeats; "
         "(3) malformed: invalid dir/xdr values and types, unknown resources, dangling connector pins, cyclic connectors "
@@ -41,6 +44,20 @@ def conn_name(c):
     return f"J{c}", c % 3
 
 
+# resource names: some are prefixes / extensions of others, so that the path roots f"{name}_{number}" of different
+# resources are prefixes of one another ("led_1" vs "led_10" vs "led_1_0", "le_1", "clk_1" vs "clk_10" ...)
+RNAMES = ["led", "led_1", "le", "clk", "clk_1", "l"]
+NUMS = [0, 1, 2, 10, 11, 12, 100]
+
+
+def res_name(i):
+    return RNAMES[i] if 0 <= i < len(RNAMES) else f"r{i}"
+
+
+def res_id(name):
+    return RNAMES.index(name) if name in RNAMES else int(name[1:])
+
+
 def pn_str(pn):
     if pn[0] == "p":
         return f"P{pn[1]}"
@@ -49,9 +66,9 @@ def pn_str(pn):
 
 
 def path_ints(path):
-    m = re.fullmatch(r"r(\d+)_(-?\d+)", path[0])
+    name, num = path[0].rsplit("_", 1)
     subs = [int(s[1:]) for s in path[1:]]
-    return [int(m.group(1)), int(m.group(2)), len(subs)] + subs
+    return [res_id(name), int(num), len(subs)] + subs
 
 
 def ioport_ints(name):
@@ -148,7 +165,7 @@ def build_args(node):
 
 def build_table(tbl):
     from amaranth.build import Resource
-    return [Resource(f"r{node[1]}", num, *build_args(node)) for num, node in tbl]
+    return [Resource(res_name(node[1]), num, *build_args(node)) for num, node in tbl]
 
 
 def py_dir(d):
@@ -232,7 +249,7 @@ def enc_value(node, val, mgr):
 def enc_state(mgr):
     out = [len(mgr._requested)]
     for name, num in mgr._requested:
-        out += [int(name[1:]), num]
+        out += [res_id(name), num]
     out.append(len(mgr._phys_reqd))
     for pin, path in mgr._phys_reqd.items():
         out += [int(pin[1:])] + path_ints(path)
@@ -257,7 +274,7 @@ def run_hist(c):
     out = []
     for name, num, d, x in c["hist"]:
         try:
-            val = with_timer(lambda: mgr.request(f"r{name}", num, dir=py_dir(d), xdr=py_xdr(x)), c.get("cyc", False))
+            val = with_timer(lambda: mgr.request(res_name(name), num, dir=py_dir(d), xdr=py_xdr(x)), c.get("cyc", False))
         except _Hang:
             return out + [-2]
         except Exception as e:
@@ -289,7 +306,7 @@ def make_platform(c):
     from amaranth.vendor import SiliconBluePlatform, LatticePlatform, GowinPlatform
     res, conns = build_table(c["tbl"]), build_conns(c["conn"])
     clk = c.get("default_clk")
-    common = dict(resources=res, connectors=conns, default_clk=None if clk is None else f"r{clk[0]}")
+    common = dict(resources=res, connectors=conns, default_clk=None if clk is None else res_name(clk[0]))
     if c["vendor"] == "ice40":
         cls = type("Ice", (SiliconBluePlatform,), dict(device="iCE40HX8K", package="CT256", **common))
         return cls(toolchain="IceStorm"), ".pcf"
@@ -316,7 +333,7 @@ def run_build(c):
             k = 0
             for name, num, d, x in c["hist"]:
                 try:
-                    val = platform.request(f"r{name}", num, dir=py_dir(d), xdr=py_xdr(x))
+                    val = platform.request(res_name(name), num, dir=py_dir(d), xdr=py_xdr(x))
                 except Exception as e:
                     if type(e).__name__ not in ERR:
                         raise
@@ -347,7 +364,7 @@ def run_build(c):
     for fn, content in plan.files.items():
         if fn.endswith(ext):
             text = content if isinstance(content, str) else content.decode()
-    if c.get("default_clk") is not None and (f"r{c['default_clk'][0]}", c["default_clk"][1]) in plat._requested:
+    if c.get("default_clk") is not None and (res_name(c["default_clk"][0]), c["default_clk"][1]) in plat._requested:
         granted.append(tuple(c["default_clk"]))
     entries, clocks = parse_constraints(c["vendor"], text)
     # canonical order = order of granted requests, leaves depth first, p before n, bits ascending
@@ -576,13 +593,34 @@ def gen_node(rng, name, depth, conns, npins, allow_bad, vendor=None):
 
 def gen_table(rng, nres, npins, conns, allow_bad, vendor=None):
     tbl, seen = [], set()
+    pending = []
     while len(tbl) < nres:
-        key = (rng.randrange(0, 5), rng.randrange(0, 2))
+        if pending:
+            key = pending.pop()
+        elif vendor is not None and not tbl:
+            key = (rng.randrange(0, len(RNAMES)), 0)        # a candidate default clock needs number 0
+        else:
+            key = (rng.randrange(0, len(RNAMES)), rng.choice(NUMS))
+            if rng.random() < 0.4:
+                pending += prefix_partners(rng, key)
         if key in seen:
             continue
         seen.add(key)
         tbl.append([key[1], gen_node(rng, key[0], 2, conns, npins, allow_bad, vendor)])
     return tbl
+
+
+def prefix_partners(rng, key):
+    """keys whose path root f"{name}_{number}" extends (or is a prefix of) the root of `key`."""
+    name, num = RNAMES[key[0]], key[1]
+    out = []
+    for n2 in range(len(RNAMES)):
+        for m2 in NUMS:
+            a, b = f"{name}_{num}", f"{RNAMES[n2]}_{m2}"
+            if a != b and (a.startswith(b) or b.startswith(a)):
+                out.append((n2, m2))
+    rng.shuffle(out)
+    return out[:rng.randrange(1, 3)]
 
 
 def gen_dir(rng, node, bad):
@@ -623,22 +661,156 @@ def gen_xdr(rng, node, bad):
     return ["d", ents]
 
 
-def gen_history(rng, tbl, n, bad):
-    h = []
-    for _ in range(n):
-        r = rng.random()
-        if bad and r < 0.07:
-            h.append([rng.randrange(0, 6), rng.randrange(0, 3), "-", None])   # possibly unknown resource
+def sim_request(tbl, conns, st, req):
+    """generator-side steering only (never an oracle): predicts whether a request is granted.
+    True/False for plain dir='-'/None requests, None when options make it uncertain."""
+    name, num, d, x = req
+    node = node_of(tbl, name, num)
+    if node is None or (name, num) in st["granted"]:
+        return False
+    pins = res_pins(node, conns)
+    new = set()
+    for p in pins:
+        if p[0] == "c" or p in st["held"] or p in new:
+            return False
+        new.add(p)
+    if d not in ("-", None) or x is not None:
+        return None
+    for p in new:
+        st["held"][p] = (name, num)
+    st["granted"].add((name, num))
+    return True
+
+
+def has_special(node):
+    """contains a DiffPairs leaf or a clock-constrained leaf"""
+    if node[0] == "L":
+        return node[3][0] == "D" or node[6] is not None
+    return any(has_special(s) for s in node[3])
+
+
+def probes(rng, tbl, conns, st):
+    """requests that collide with pins (incl. DiffPairs n pins / clocked ports) of previously granted resources,
+    or repeat a granted one: a leaked or erased allocation then shows as a wrong grant / refusal."""
+    coll, special = [], []
+    for num, node in tbl:
+        key = (node[1], num)
+        if key in st["granted"]:
             continue
-        if h and r < 0.2:
-            prev = rng.choice(h)
-            node = node_of(tbl, prev[0], prev[1])
-            if node is not None:
-                h.append([prev[0], prev[1], gen_dir(rng, node, bad), gen_xdr(rng, node, bad)])
-                continue
-        num, node = rng.choice(tbl)
-        h.append([node[1], num, gen_dir(rng, node, bad), gen_xdr(rng, node, bad)])
+        owners = {st["held"][p] for p in res_pins(node, conns) if p in st["held"]}
+        if owners:
+            coll.append(key)
+            if any(has_special(node_of(tbl, *o)) for o in owners):
+                special.append(key)
+    out = []
+    for _ in range(rng.randrange(1, 3)):
+        r = rng.random()
+        if special and r < 0.5:
+            out.append(rng.choice(special))
+        elif coll and r < 0.85:
+            out.append(rng.choice(coll))
+        elif st["granted"]:
+            out.append(rng.choice(sorted(st["granted"])))
+    return [[k[0], k[1], "-", None] for k in out]
+
+
+def gen_history(rng, tbl, n, bad, conns=None, steer=True):
+    h = []
+    steer = steer and conns is not None and not has_cycle(conns)
+    st = {"granted": set(), "held": {}}
+    queue = []
+    while len(h) < n:
+        if queue:
+            req = queue.pop(0)
+        else:
+            r = rng.random()
+            if bad and r < 0.07:
+                req = [rng.randrange(0, len(RNAMES) + 1), rng.choice(NUMS + [3]), "-", None]   # possibly unknown
+            else:
+                req = None
+                if h and r < 0.2:
+                    prev = rng.choice(h)
+                    node = node_of(tbl, prev[0], prev[1])
+                    if node is not None:
+                        req = [prev[0], prev[1], gen_dir(rng, node, bad), gen_xdr(rng, node, bad)]
+                if req is None:
+                    num, node = rng.choice(tbl)
+                    req = [node[1], num, gen_dir(rng, node, bad), gen_xdr(rng, node, bad)]
+        h.append(req)
+        if steer:
+            ok = sim_request(tbl, conns, st, req)
+            if ok is False and not queue and st["granted"] and rng.random() < 0.75:
+                queue = probes(rng, tbl, conns, st)
     return h
+
+
+def gen_prefix_case(rng):
+    """a granted resource whose path root extends the root of a resource that is then refused after it has
+    already claimed a pin; followed by requests colliding with the first one's pins (incl. n pins, clocks)."""
+    npins = rng.randrange(5, 10)
+    conns = gen_conns(rng, npins, False) if rng.random() < 0.3 else []
+    k_short = (rng.randrange(0, len(RNAMES)), rng.choice(NUMS))
+    part = [k for k in prefix_partners(rng, k_short)]
+    while not part:
+        k_short = (rng.randrange(0, len(RNAMES)), rng.choice(NUMS))
+        part = prefix_partners(rng, k_short)
+    k_long = part[0]
+    if rng.random() < 0.3:
+        k_short, k_long = k_long, k_short
+    pool = list(range(npins))
+    rng.shuffle(pool)
+    a, b, c, d = pool[:4]
+    clock = rng.choice([None, 8, 10, 100])
+    if rng.random() < 0.5:
+        long_leaf = ["L", k_long[0], gen_attrs(rng), ["D", [["p", a]], [["p", b]]], rng.choice(["i", "o"]), rng.random() < 0.3,
+                     clock, "plain"]
+    else:
+        long_leaf = ["L", k_long[0], gen_attrs(rng), ["P", [["p", a], ["p", b]]], rng.choice(DIRS), rng.random() < 0.3,
+                     clock, "plain"]
+    long_node = long_leaf
+    if rng.random() < 0.4:
+        long_node = ["G", k_long[0], gen_attrs(rng), [_rename(long_leaf, 1),
+                                                       ["L", 2, [], ["P", [["p", d]]], "i", False, rng.choice([None, 20]), "plain"]]]
+    # the short one first claims a free pin (and possibly a clock), then hits a pin that is already held
+    hit = rng.choice([a, b])
+    short_node = ["G", k_short[0], gen_attrs(rng),
+                  [["L", 0, [], ["P", [["p", c]]], rng.choice(DIRS), False, rng.choice([None, 10]), "plain"],
+                   ["L", 1, [], ["P", [["p", hit]]], rng.choice(DIRS), rng.random() < 0.3, None, "plain"]]] \
+        if rng.random() < 0.6 else \
+        ["L", k_short[0], [], ["P", [["p", c], ["p", hit]]], rng.choice(DIRS), False, rng.choice([None, 10]), "plain"]
+    tbl = [[k_long[1], long_node], [k_short[1], short_node]]
+    seen = {k_long, k_short}
+    # probes: collide with a / b (the n pin of the pair) / d
+    for pin in rng.sample([a, b, d, c], rng.randrange(2, 5)):
+        key = (rng.randrange(0, len(RNAMES)), rng.choice(NUMS))
+        if key in seen:
+            continue
+        seen.add(key)
+        other = rng.choice(pool[4:]) if len(pool) > 4 and rng.random() < 0.5 else None
+        names = [["p", pin]] if other is None else [["p", other], ["p", pin]]
+        tbl.append([key[1], ["L", key[0], gen_attrs(rng), ["P", names], rng.choice(DIRS), False, rng.choice([None, 1000]), "plain"]])
+    rng.shuffle(tbl)
+    req = lambda k: [k[0], k[1], "-" if rng.random() < 0.9 else None, None]
+    hist = [req(k_long)]
+    if rng.random() < 0.4 and len(tbl) > 2:
+        num, node = rng.choice(tbl)
+        hist.append(req((node[1], num)))
+    hist.append(req(k_short))
+    others = [(node[1], num) for num, node in tbl if (node[1], num) not in (k_long, k_short)]
+    rng.shuffle(others)
+    for k in others[:rng.randrange(1, 4)]:
+        hist.append(req(k))
+    if rng.random() < 0.5:
+        hist.append(req(k_short))
+    if rng.random() < 0.3:
+        hist.append(req(k_long))
+    return {"k": "hist", "tbl": tbl, "conn": conns, "cyc": False, "hist": hist[:12], "pfx": True}
+
+
+def _rename(leaf, name):
+    leaf = list(leaf)
+    leaf[1] = name
+    return leaf
 
 
 def small_scope_maps():
@@ -698,7 +870,7 @@ def gen_cases(tier, seed):
         conns = gen_conns(rng, npins, False)
         tbl = gen_table(rng, rng.randrange(1, 9), npins, conns, bad)
         cases.append({"k": "hist", "tbl": tbl, "conn": conns, "cyc": False,
-                      "hist": gen_history(rng, tbl, rng.randrange(1, 13), bad)})
+                      "hist": gen_history(rng, tbl, rng.randrange(1, 13), bad, conns)})
     # cyclic connector tables inside histories
     for i in range(100 if not thorough else 1500):
         npins = rng.randrange(3, 8)
@@ -709,7 +881,9 @@ def gen_cases(tier, seed):
                 c0 = rng.randrange(0, len(conns))
                 node[3] = ["P", [["c", c0, rng.choice([e[0] for e in conns[c0][1]])]]]
         cases.append({"k": "hist", "tbl": tbl, "conn": conns, "cyc": has_cycle(conns),
-                      "hist": gen_history(rng, tbl, rng.randrange(1, 6), False)})
+                      "hist": gen_history(rng, tbl, rng.randrange(1, 6), False, conns)})
+    for i in range(250 if not thorough else 3000):
+        cases.append(gen_prefix_case(rng))
     NB = 40 if not thorough else 300
     for vendor in ("ice40", "ecp5", "gowin"):
         for i in range(NB):
@@ -749,6 +923,8 @@ def classify(c):
     if c["k"] == "build":
         return "build:" + c["vendor"]
     tags = []
+    if c.get("pfx") or prefix_pairs(c["tbl"]):
+        tags.append("pfxroots")
     if c.get("cyc"):
         tags.append("cyclic")
     if c["conn"]:
@@ -756,6 +932,11 @@ def classify(c):
     if any(h[2] not in ("-", None) or h[3] is not None for h in c["hist"]):
         tags.append("opts")
     return "hist:" + ("+".join(tags) if tags else "plain") + f":len{min(len(c['hist']) // 4 * 4, 12)}"
+
+
+def prefix_pairs(tbl):
+    roots = [f"{res_name(node[1])}_{num}" for num, node in tbl]
+    return any(a != b and b.startswith(a) for a in roots for b in roots)
 
 
 def nontrivial(c, obs):
